@@ -1,7 +1,7 @@
 """Unbiased mutation sample: random AST operators on the anchored files of the repaired tree; every property's quick check is run on each mutant."""
 import ast, concurrent.futures as cf, copy, json, os, pathlib, random, shutil, subprocess, sys, tempfile
-BASE = pathlib.Path("/tmp/scratch/fixedrepo")
-STAGE = "/tmp/scratch/proto"
+BASE = pathlib.Path(os.environ.get("PFSA_SELFTEST_BASE", "/repo"))
+STAGE = str(pathlib.Path(__file__).resolve().parent.parent)
 FILES = ["nn/functional.py", "nn/modules/hedger.py", "nn/modules/loss.py", "_utils/bisect.py", "_utils/parse.py", "_utils/hook.py", "_utils/operations.py", "autogreek.py",
          "stochastic/brownian.py", "stochastic/cir.py", "stochastic/heston.py", "stochastic/vasicek.py", "stochastic/merton_jump.py", "stochastic/kou_jump.py", "stochastic/rough_bergomi.py",
          "stochastic/local_volatility.py", "stochastic/_utils.py", "stochastic/random.py", "instruments/primary/base.py", "instruments/derivative/base.py", "instruments/primary/brownian.py",
@@ -98,7 +98,7 @@ def run_one(item):
         new_src, before, after = apply(f, k)
         (tmp / "pfhedge" / f).write_text(new_src)
         (tmp / "verif").mkdir()
-        shutil.copy("/tmp/scratch/verif_out/known_findings.json", tmp / "verif" / "known_findings.json")
+        shutil.copy(STAGE + "/known_findings.json", tmp / "verif" / "known_findings.json")
         env = dict(os.environ, PFSA_REPO=str(tmp), PFSA_VERIF=str(tmp / "verif"))
         fired, errors = [], []
         for pid in sorted(ANCH.get(f, set(PROPS))):
@@ -120,5 +120,5 @@ if __name__ == "__main__":
             res.append(r)
             tag = "FIRE " + ",".join(r["fired"]) if r["fired"] else ("ERR " + ",".join(r["errors"]) if r["errors"] else "silent")
             print(f"{r['file']}:{r['line']} [{r['kind']}] {r['before'][:60]!r} -> {r['after'][:60]!r} :: {tag}", flush=True)
-    json.dump(res, open(f"/tmp/scratch/mt/result_{seed}.json", "w"), indent=1)
+    json.dump(res, open(os.path.join(os.environ.get("PFSA_SAMPLE_OUT", "/var/tmp"), f"pfsa_sample_{seed}.json"), "w"), indent=1)
     print("fired", sum(1 for r in res if r["fired"]), "errors-only", sum(1 for r in res if not r["fired"] and r["errors"]), "silent", sum(1 for r in res if not r["fired"] and not r["errors"]))
